@@ -34,7 +34,17 @@ pub enum Op {
     DedupByKey,
     /// `splice(start..end, ids)`, `pulls` × `next()`, drop of the `Splice`; the last field caps the lower
     /// bound `replace_with.size_hint()` reports (large: exact; small: the `collected` fallback of `Splice::drop` runs)
-    Splice(usize, usize, Vec<u64>, usize, usize),
+    /// The very last field: a LYING source — `size_hint().0` is that number whatever is left (over-reporting up
+    /// to values whose reservation ends in the "capacity overflow" panic).
+    Splice(usize, usize, Vec<u64>, usize, usize, Option<usize>),
+    /// `BumpVec::shrink_to(min_capacity)`
+    ShrinkTo(usize),
+    /// `Extend::extend(iter)`: source ids, cap of the honest lower bound, the lie (see `Splice`)
+    ExtendIter(Vec<u64>, usize, Option<usize>),
+    /// the inner operation through another route of the API (same model operation, same std twin):
+    /// 1 = the `try_*` twin (`Err` counts as the refusal), 2 = `push_mut` / `insert_mut` (the returned reference
+    /// must point at the new element), 3 = `push_with(|| value)`, 4 = `dedup()` (`PartialEq`) for `dedup_by`
+    Alt(u8, Box<Op>),
 }
 
 fn script_text(s: &[u8]) -> String {
@@ -73,6 +83,10 @@ impl Op {
             Op::PopIf => "pop_if",
             Op::DedupByKey => "dedup_by_key",
             Op::Splice(..) => "splice",
+            Op::ShrinkTo(_) => "shrink_to",
+            Op::ExtendIter(..) => "extend_iter",
+            Op::Alt(3, _) => "push_with",
+            Op::Alt(_, inner) => inner.name(),
         }
     }
     /// is the operation replayed on the Lean model (correspondence), or checked by the oracles only?
@@ -99,14 +113,23 @@ impl Op {
             Op::Reserve(n) | Op::ReserveExact(n) | Op::ResizeWith(n) => format!(" {n}"),
             Op::ShrinkToFit | Op::PopIf | Op::DedupByKey => String::new(),
             Op::ExtendWithinClone(a, b) => format!(" {a} {b}"),
-            Op::Splice(a, b, ids, k, h) => format!(" {a} {b} src={} pulls={k} hint={h}", csv(ids)),
+            Op::ShrinkTo(n) => format!(" {n}"),
+            Op::ExtendIter(ids, h, None) => format!(" src={} hint={h}", csv(ids)),
+            Op::ExtendIter(ids, h, Some(l)) => format!(" src={} hint={h} lie={l} maxcap={}", csv(ids), isize::MAX as usize / std::mem::size_of::<E>()),
+            Op::Alt(1, inner) => format!("{} via=try", inner.args()),
+            Op::Alt(_, inner) => inner.args(),
+            Op::Splice(a, b, ids, k, h, None) => format!(" {a} {b} src={} pulls={k} hint={h}", csv(ids)),
+            Op::Splice(a, b, ids, k, h, Some(l)) => format!(" {a} {b} src={} pulls={k} hint={h} lie={l} maxcap={}", csv(ids), isize::MAX as usize / std::mem::size_of::<E>()),
         }
     }
     /// does the operation need spare capacity / is it unavailable on `BumpBox<[T]>`?
     pub fn grows(&self) -> bool {
+        if let Op::Alt(_, inner) = self {
+            return inner.grows();
+        }
         matches!(
             self,
-            Op::Push(_) | Op::Insert(..) | Op::ExtendClone(_) | Op::Resize(..) | Op::Append(_) | Op::Reserve(_) | Op::ReserveExact(_) | Op::ExtendWithinClone(..) | Op::ResizeWith(_) | Op::Splice(..)
+            Op::Push(_) | Op::Insert(..) | Op::ExtendClone(_) | Op::Resize(..) | Op::Append(_) | Op::Reserve(_) | Op::ReserveExact(_) | Op::ExtendWithinClone(..) | Op::ResizeWith(_) | Op::Splice(..) | Op::ExtendIter(..)
         )
     }
     /// number of additional elements the operation needs room for (given the current length)
@@ -120,7 +143,9 @@ impl Op {
             Op::Reserve(n) | Op::ReserveExact(n) => *n,
             Op::ExtendWithinClone(a, b) => if a <= b && *b <= len { b - a } else { 0 },
             Op::ResizeWith(n) => n.saturating_sub(len),
-            Op::Splice(a, b, ids, _, _) => if a <= b && *b <= len { ids.len().saturating_sub(b - a) } else { 0 },
+            Op::ExtendIter(ids, _, _) => ids.len(),
+            Op::Alt(_, inner) => inner.additional(len),
+            Op::Splice(a, b, ids, _, _, _) => if a <= b && *b <= len { ids.len().saturating_sub(b - a) } else { 0 },
             _ => 0,
         }
     }
@@ -269,6 +294,18 @@ pub fn std_apply(v: &mut Vec<u64>, op: &Op, o: &[Oc]) -> Result<(String, usize),
             String::new()
         }
         Op::Reserve(_) | Op::ReserveExact(_) | Op::ShrinkToFit => String::new(),
+        Op::ShrinkTo(n) => {
+            v.shrink_to(*n);
+            String::new()
+        }
+        Op::Alt(_, inner) => {
+            drop(next);
+            return std_apply(v, inner, o);
+        }
+        Op::ExtendIter(ids, hint, lie) => {
+            let r = catch_unwind(AssertUnwindSafe(|| v.extend(Hinted { inner: ids.clone().into_iter(), cap: *hint, lie: *lie })));
+            if r.is_err() { "!".to_string() } else { String::new() }
+        }
         Op::ExtendWithinClone(a, b) => {
             if a > b || *b > v.len() {
                 return Err(());
@@ -301,28 +338,33 @@ pub fn std_apply(v: &mut Vec<u64>, op: &Op, o: &[Oc]) -> Result<(String, usize),
             v.dedup_by_key(|_| next());
             String::new()
         }
-        Op::Splice(a, b, ids, pulls, _) => {
+        Op::Splice(a, b, ids, pulls, hint, lie) => {
             if a > b || *b > v.len() {
                 return Err(());
             }
-            let mut ys = Vec::new();
-            {
-                let mut sp = v.splice(*a..*b, ids.iter().copied());
+            // the same (possibly lying) source; `Vec`'s own `Splice::drop` may panic with "capacity overflow"
+            let ys = RefCell::new(Vec::new());
+            let r = catch_unwind(AssertUnwindSafe(|| {
+                let mut sp = v.splice(*a..*b, Hinted { inner: ids.clone().into_iter(), cap: *hint, lie: *lie });
                 for _ in 0..*pulls {
-                    ys.push(sp.next().map_or("none".to_string(), |x| x.to_string()));
+                    ys.borrow_mut().push(sp.next().map_or("none".to_string(), |x| x.to_string()));
                 }
-            }
-            if ys.is_empty() { "-".to_string() } else { ys.join("/") }
+            }));
+            let ys = ys.into_inner();
+            let t = if ys.is_empty() { "-".to_string() } else { ys.join("/") };
+            if r.is_err() { format!("!{t}") } else { t }
         }
     };
     drop(next);
     Ok((r, consumed.get()))
 }
 
-/// an iterator whose `size_hint` lower bound is capped (an honest under-estimate)
+/// an iterator whose `size_hint` lower bound is capped (an honest under-estimate) or, with `lie`, a fixed
+/// number whatever is left (a lying source; `Iterator::size_hint` is only a hint, a wrong one must be safe)
 pub struct Hinted<I> {
     pub inner: I,
     pub cap: usize,
+    pub lie: Option<usize>,
 }
 impl<I: ExactSizeIterator> Iterator for Hinted<I> {
     type Item = I::Item;
@@ -330,7 +372,7 @@ impl<I: ExactSizeIterator> Iterator for Hinted<I> {
         self.inner.next()
     }
     fn size_hint(&self) -> (usize, Option<usize>) {
-        (self.inner.len().min(self.cap), None)
+        (self.lie.unwrap_or(self.inner.len().min(self.cap)), None)
     }
 }
 
@@ -351,7 +393,19 @@ pub trait VecDyn<'a> {
     fn split_off_dyn(&mut self, start: usize, end: usize) -> Option<DynVec<'a>>;
     /// `shrink_to_fit` where the type has it
     fn shrink_dyn(&mut self) -> bool;
+    /// allocates a small pattern-filled block from the arena the vector lives in, where the vector gives access to
+    /// it (`BumpVec::allocator()`): a vector that kept a stale buffer pointer gets overwritten by it
+    fn poke(&self) -> bool;
 }
+
+/// see `VecDyn::poke`
+pub trait Poke {
+    fn poke_arena(&self) -> bool {
+        false
+    }
+}
+impl<'a, T> Poke for BumpBox<'a, [T]> {}
+impl<'a, T> Poke for FixedBumpVec<'a, T> {}
 
 fn pulls_text<T: Elem>(it: &mut dyn DoubleEndedIterator<Item = T>, script: &[u8]) -> String {
     let mut ys = Vec::new();
@@ -421,6 +475,82 @@ macro_rules! impl_vecdyn {
                 String::new()
             }
             Op::PopIf => opt_text($s.pop_if($T::pred)),
+            Op::Alt(k, inner) => {
+                match (*k, &**inner) {
+                    (1, Op::Push(id)) => {
+                        if $s.try_push($T::make(*id)).is_err() {
+                            try_err()
+                        }
+                    }
+                    (1, Op::Insert(i, id)) => {
+                        if $s.try_insert(*i, $T::make(*id)).is_err() {
+                            try_err()
+                        }
+                    }
+                    (1, Op::Reserve(n)) => {
+                        if $s.try_reserve(*n).is_err() {
+                            try_err()
+                        }
+                    }
+                    (1, Op::ExtendClone(n)) => {
+                        let src: Vec<SrcElem<$T>> = (0..*n).map(|_| SrcElem::new()).collect();
+                        if $s.try_extend_from_slice_clone(SrcElem::as_slice(&src)).is_err() {
+                            try_err()
+                        }
+                    }
+                    (1, Op::Resize(n, id)) => {
+                        if $s.try_resize(*n, $T::make(*id)).is_err() {
+                            try_err()
+                        }
+                    }
+                    (1, Op::ResizeWith(n)) => {
+                        if $s.try_resize_with(*n, $T::gen_cb).is_err() {
+                            try_err()
+                        }
+                    }
+                    (1, Op::Append(ids)) => {
+                        let src: Vec<$T> = ids.iter().map(|i| $T::make(*i)).collect();
+                        if $s.try_append(src).is_err() {
+                            try_err()
+                        }
+                    }
+                    (1, Op::ExtendWithinClone(a, b)) => {
+                        if $s.try_extend_from_within_clone(*a..*b).is_err() {
+                            try_err()
+                        }
+                    }
+                    (2, Op::Push(id)) => {
+                        let p = {
+                            let r = $s.push_mut($T::make(*id));
+                            if !$T::ZST && r.ident() != *id {
+                                note_bad_ref();
+                            }
+                            r as *mut $T as usize
+                        };
+                        if !$T::ZST && $s.as_slice().last().map(|e| e as *const $T as usize) != Some(p) {
+                            note_bad_ref();
+                        }
+                    }
+                    (2, Op::Insert(i, id)) => {
+                        let p = {
+                            let r = $s.insert_mut(*i, $T::make(*id));
+                            if !$T::ZST && r.ident() != *id {
+                                note_bad_ref();
+                            }
+                            r as *mut $T as usize
+                        };
+                        if !$T::ZST && $s.as_slice().get(*i).map(|e| e as *const $T as usize) != Some(p) {
+                            note_bad_ref();
+                        }
+                    }
+                    (3, Op::Push(id)) => {
+                        let id = *id;
+                        $s.push_with(|| $T::make(id));
+                    }
+                    (k, o) => unreachable!("no route {k} for {:?}", o),
+                }
+                String::new()
+            }
             other => $s.extra(other),
         }
     };
@@ -464,6 +594,10 @@ macro_rules! impl_vecdyn {
                     }
                     Op::DedupBy => {
                         s.dedup_by($T::same);
+                        String::new()
+                    }
+                    Op::Alt(4, inner) if **inner == Op::DedupBy => {
+                        s.dedup();
                         String::new()
                     }
                     Op::Truncate(n) => {
@@ -532,6 +666,9 @@ macro_rules! impl_vecdyn {
                 let s = self;
                 impl_vecdyn!(@shrink s, $sh)
             }
+            fn poke(&self) -> bool {
+                Poke::poke_arena(self)
+            }
         }
     };
 }
@@ -558,9 +695,18 @@ macro_rules! impl_extra {
                         self.shrink_to_fit();
                         String::new()
                     }
-                    Op::Splice(a, b, ids, pulls, hint) => {
+                    Op::ShrinkTo(n) => {
+                        self.shrink_to(*n);
+                        String::new()
+                    }
+                    Op::ExtendIter(ids, hint, lie) => {
                         let src: Vec<T> = ids.iter().map(|i| T::make(*i)).collect();
-                        let mut sp = self.splice(*a..*b, Hinted { inner: src.into_iter(), cap: *hint });
+                        self.extend(Hinted { inner: src.into_iter(), cap: *hint, lie: *lie });
+                        String::new()
+                    }
+                    Op::Splice(a, b, ids, pulls, hint, lie) => {
+                        let src: Vec<T> = ids.iter().map(|i| T::make(*i)).collect();
+                        let mut sp = self.splice(*a..*b, Hinted { inner: src.into_iter(), cap: *hint, lie: *lie });
                         let mut ys = Vec::new();
                         for _ in 0..*pulls {
                             ys.push(match sp.next() {
@@ -575,6 +721,15 @@ macro_rules! impl_extra {
                 }
             }
         }
+        impl<'a, T> Poke for BumpVec<T, &'a Bump<Global, $S>> {
+            fn poke_arena(&self) -> bool {
+                let bump: &Bump<Global, $S> = *self.allocator();
+                let n = 8 + (self.len() % 5) * 24;
+                let block = bump.alloc_slice_fill(n, 0xA7u8);
+                block.iter().all(|b| *b == 0xA7)
+            }
+        }
+        impl<'a, T> Poke for MutBumpVec<T, &'a mut Bump<Global, $S>> {}
         impl<'a, T: Elem> Extra for MutBumpVec<T, &'a mut Bump<Global, $S>> {
             fn extra(&mut self, op: &Op) -> String {
                 match op {
@@ -683,6 +838,77 @@ macro_rules! impl_vecdyn_rev {
                         String::new()
                     }
                     Op::PopIf => opt_text(s.pop_if(T::pred)),
+                    Op::Alt(k, inner) => {
+                        match (*k, &**inner) {
+                            (1, Op::Push(id)) => {
+                                if s.try_push(T::make(*id)).is_err() {
+                                    try_err()
+                                }
+                            }
+                            (1, Op::Insert(i, id)) => {
+                                if s.try_insert(*i, T::make(*id)).is_err() {
+                                    try_err()
+                                }
+                            }
+                            (1, Op::Reserve(n)) => {
+                                if s.try_reserve(*n).is_err() {
+                                    try_err()
+                                }
+                            }
+                            (1, Op::ExtendClone(n)) => {
+                                let src: Vec<SrcElem<T>> = (0..*n).map(|_| SrcElem::new()).collect();
+                                if s.try_extend_from_slice_clone(SrcElem::as_slice(&src)).is_err() {
+                                    try_err()
+                                }
+                            }
+                            (1, Op::Resize(n, id)) => {
+                                if s.try_resize(*n, T::make(*id)).is_err() {
+                                    try_err()
+                                }
+                            }
+                            (1, Op::ResizeWith(n)) => {
+                                if s.try_resize_with(*n, T::gen_cb).is_err() {
+                                    try_err()
+                                }
+                            }
+                            (1, Op::Append(ids)) => {
+                                let src: Vec<T> = ids.iter().map(|i| T::make(*i)).collect();
+                                if s.try_append(src).is_err() {
+                                    try_err()
+                                }
+                            }
+                            (2, Op::Push(id)) => {
+                                let p = {
+                                    let r = s.push_mut(T::make(*id));
+                                    if !T::ZST && r.ident() != *id {
+                                        note_bad_ref();
+                                    }
+                                    r as *mut T as usize
+                                };
+                                if !T::ZST && s.as_slice().first().map(|e| e as *const T as usize) != Some(p) {
+                                    note_bad_ref();
+                                }
+                            }
+                            (2, Op::Insert(i, id)) => {
+                                let p = {
+                                    let r = s.insert_mut(*i, T::make(*id));
+                                    if !T::ZST && r.ident() != *id {
+                                        note_bad_ref();
+                                    }
+                                    r as *mut T as usize
+                                };
+                                if !T::ZST && s.as_slice().get(*i).map(|e| e as *const T as usize) != Some(p) {
+                                    note_bad_ref();
+                                }
+                            }
+                            (3, Op::Push(id)) => {
+                                let id = *id;
+                                s.push_with(|| T::make(id));
+                            }
+                            (k, o) => unreachable!("no route {k} for {:?}", o),
+                        }
+                        String::new()
+                    }
                     other => unreachable!("operation {:?} is not available on MutBumpVecRev", other),
                 }
             }
@@ -703,6 +929,9 @@ macro_rules! impl_vecdyn_rev {
             fn shrink_dyn(&mut self) -> bool {
                 false
             }
+            fn poke(&self) -> bool {
+                false
+            }
         }
     };
 }
@@ -717,6 +946,9 @@ pub fn std_apply_rev(v: &mut Vec<u64>, op: &Op, o: &[Oc]) -> Result<(String, usi
     let mut d: VecDeque<u64> = v.iter().copied().collect();
     let mut used = 0usize;
     let vals: Vec<u64> = o.iter().map(|x| match x { Oc::Ret(v) => *v, Oc::Panic => unreachable!() }).collect();
+    if let Op::Alt(_, inner) = op {
+        return std_apply_rev(v, inner, o);
+    }
     let r = match op {
         Op::Truncate(n) => {
             // keeps the LAST n elements
